@@ -62,6 +62,14 @@ CLAIMED = {
             "relational symbolic execution with z3: two copies of a detector in the same arbitrary state take label pairs of "
             "different encodings with equal agreement (one inductive step, DDM/EDDM/STEPD), LFR 0/1 encodings, ADWINAccuracy "
             "histories, and every detector with an arbitrary object as its unused argument vs None; complete-state equality"),
+    "C17": ("DESIGN.md 7/C17",
+            "quantile-type library calls are monotone in the level for fixed data; log monotone; random draws are deterministic "
+            "functions of their arguments shared by both runs; kdq/NNDVI/HDM runs use concrete placeholder data with symbolic "
+            "thresholds; one known finding (PageHinkley with negative running mean) keyed to its own obligation label",
+            "relational symbolic execution with z3: two copies of a detector differing only in the threshold take the same "
+            "input; one-update lemma (strict alarm implies loose alarm; equal state while the loose one is silent) from an "
+            "arbitrary state for the scalar detectors and along bounded histories for ADWIN/LFR/kdq/NNDVI/HDM; ADWIN epsilon-cut "
+            "monotonicity in delta as a kernel lemma; warning-threshold half likewise"),
     "C13": ("DESIGN.md 7/C13",
             "members modelled as objects exposing drift_state; parameters on their documented domains; z3 LIA; CPython",
             "symbolic execution of election.py with z3: all vote patterns for n<=5/6 members with unbounded integer "
